@@ -155,7 +155,16 @@ func (sc *SpecCtx) eval(e *SExpr) (*Val, error) {
 	case SOld:
 		sub := *sc
 		sub.cur = sc.old
-		return sub.eval(e.X)
+		v, err := sub.eval(e.X)
+		if err != nil {
+			return nil, err
+		}
+		if v.StructLoc {
+			// a struct-typed location: its contents must be read in the OLD state
+			st, _ := derefStruct(v.Ty)
+			return &Val{T: g.loadStruct(sc.old, v.T, st), Ty: st}, nil
+		}
+		return v, nil
 	case SUnary:
 		x, err := sc.eval(e.X)
 		if err != nil {
@@ -360,7 +369,9 @@ func (sc *SpecCtx) field(x *Val, name string) (*Val, error) {
 		if sub != "" { // array field
 			return &Val{T: g.readLoc(sc.cur, loc), Ty: ft, LV: nil}, nil
 		}
-		return &Val{T: g.readLoc(sc.cur, loc), Ty: ft}, nil
+		rv := &Val{T: g.readLoc(sc.cur, loc), Ty: ft}
+		sc.heapWF(rv)
+		return rv, nil
 	}
 	if u, ok := x.Ty.Underlying().(*types.Struct); ok {
 		for i := 0; i < u.NumFields(); i++ {
@@ -873,4 +884,21 @@ func (g *Gen) typeByName(name string) (types.Type, error) {
 		}
 	}
 	return nil, fmt.Errorf("unknown type %q", name)
+}
+
+// heapWF: every reference stored in the heap of a state was allocated before that
+// state's allocation watermark (an invariant of the heap model).  Stated for
+// ground terms only.
+func (sc *SpecCtx) heapWF(v *Val) {
+	if len(sc.qvars) > 0 || v.Ty == nil {
+		return
+	}
+	g := sc.g
+	brk := g.ghostTerm(sc.cur, "$brk")
+	switch v.Ty.Underlying().(type) {
+	case *types.Slice:
+		g.assert(and(sx("wf-slice", v.T), sx("<", sx("sl-base", v.T), brk)))
+	case *types.Pointer, *types.Map:
+		g.assert(sx("<", v.T, brk))
+	}
 }
